@@ -25,6 +25,7 @@ ROOT = "query::runner::hybrid::Query::<C, HV, R>::execute"
 
 
 def run(ctx):
+    input_bound(ctx, ctx.facts())
     facts = ctx.facts()
     tree = [b for b in facts.tree(ROOT) if b.file.startswith("ipa-core/")]
     if not tree:
@@ -160,3 +161,46 @@ def rng(ctx, facts):
         e = flow.expr_of(b, tf[0][1]["args"][0])
         ok = e[0] == "bin" and e[1] == "Rem" and "from_le_bytes" in str(e[2]) and "bytes" in str(e[2]) and ("arg", 2) == e[3][2][0][:2] if e[3][0] == "call" else False
     ctx.ob("RANGE", "picker-shape", ok, "num % shard_count" if ok else f"shard index is {str(e)[:160]}", site_of(b))
+
+
+def input_bound(ctx, facts):
+    """Every report of the shard's input has to be decrypted and tagged before the duplicate check can mean anything:
+    the only bound on how many are read is `.take(query_size)` with the query's own declared size, handed through
+    unchanged.  A smaller bound (e.g. size / shard_count) silently cuts the tail of an unevenly loaded shard - and a
+    copy of a report sitting in that tail is never compared."""
+    ctx.rule("BOUND-input: execute_hybrid_protocol passes `config.size` verbatim (lossless conversions only) as query_size to Query::execute, and execute limits its input stream with take(usize::from(query_size)) of that same parameter and with nothing else")
+    tree = [b for b in facts.tree("query::runner::hybrid::execute_hybrid_protocol") if b.coroutine]
+    call = None
+    for b in tree:
+        for bb, t in b.calls():
+            if (F.callee(t)[0] or "").endswith("Query::<C, HV, R>::execute"):
+                call = (b, bb, t)
+    if call is None:
+        ctx.missing("BOUND-input", "Query::execute call in execute_hybrid_protocol")
+    else:
+        b, bb, t = call
+        ctx.count(bodies=1)
+        e = flow.strip_casts(flow.expr_of(b, t["args"][2], max_depth=20))
+        while e[0] == "call" and re.search(r"(From::from|Into::into|Clone::clone|TryFrom::try_from|Result::<T, E>::(unwrap|expect))$", e[1]) and e[2]:
+            e = flow.strip_casts(e[2][0])
+        ok = e[0] == "proj" and e[-1] == "size" and e[1][0] in ("upvar", "arg")
+        ctx.ob("BOUND-input", "size-handed-through", ok, "query_size = config.size" if ok else f"the size given to Query::execute is `{str(e)[:100]}`, not the query's declared size: a shard holding more than that many reports drops the rest unseen (a duplicate in the dropped tail is never detected)", site_of(b, bb))
+    ex = [b for b in facts.tree("query::runner::hybrid::Query::<C, HV, R>::execute") if b.coroutine]
+    takes = []
+    for b in ex:
+        for bb, t in b.calls():
+            if re.search(r"StreamExt::(take|take_while|take_until|skip|skip_while|step_by)$|Iterator::(take|skip|step_by)$", F.callee(t)[0] or ""):
+                takes.append((b, bb, t))
+    okt = len(takes) == 1 and (F.callee(takes[0][2])[0] or "").endswith("StreamExt::take")
+    if okt:
+        b, bb, t = takes[0]
+        n = flow.strip_casts(flow.expr_of(b, t["args"][1], max_depth=12))
+        while n[0] == "call" and re.search(r"(From::from|Into::into)$", n[1]) and n[2]:
+            n = flow.strip_casts(n[2][0])
+        pn = None
+        root = facts.bodies.get("query::runner::hybrid::Query::<C, HV, R>::execute")
+        if root is not None:
+            names = {v["p"][0]: v["n"] for v in root.vars if len(v["p"]) == 1 and 1 <= v["p"][0] <= root.nargs}
+            pn = names.get(3)
+        okt = n == ("upvar", pn)
+    ctx.ob("BOUND-input", "take(query_size)-only", okt, "the input stream is limited by take(query_size) and nothing else" if okt else "the report stream in Query::execute is truncated / skipped by something other than take(query_size)", site_of(takes[0][0], takes[0][1]) if takes else None)
